@@ -200,6 +200,11 @@ def enc_cases(c):
     return dims, labs, enc_list(out)
 
 
+def mcall(ctx, entry, arg):
+    """model entry call; None when the check runs without the extracted model (run_without_model)"""
+    return None if getattr(ctx, "no_model", False) else ctx.model(entry, arg)
+
+
 def model_crps(ctx, c):
     dims, labs, cases = enc_cases(c)
     o = c["opt"]
@@ -208,7 +213,7 @@ def model_crps(ctx, c):
                     cases, enc_nums(c["add"] or []),
                     enc_str(o["fcst_fill_method"]), enc_str(o["threshold_weight_fill_method"]), enc_str(o["integration_method"]),
                     enc_bool(o["propagate_nans"])])
-    return dims, labs, ctx.model("c07_crps_cases", arg)
+    return dims, labs, mcall(ctx, "c07_crps_cases", arg)
 
 
 def call_crps(c, include_components=True, **over):
@@ -250,6 +255,15 @@ def tie_crps(ctx, c, components=True):
     dims, labs, m = model_crps(ctx, c)
     impl = call_crps(c, include_components=components)
     desc = describe(c)
+    if m is None:      # no model available: only the relations between the outputs of the implementation
+        if impl[0] == "ok" and components:
+            ctx.case(("crps", desc))
+            for lb, g in zip(labs, impl_triples(impl[1], dims, labs)):
+                t, u, o = g
+                if not (np.isnan(t) and np.isnan(u) and np.isnan(o)) and not (abs(u + o - t) <= 1e-9 and u >= -1e-12 and o >= -1e-12):
+                    ctx.violation("under + over != total or a negative component", {**desc, "case": dict(zip(dims, lb))}, "u+o=t, u>=0, o>=0", g)
+                    break
+        return None
     res, spec, grid = m
     if core.is_err(res) or impl[0] == "err":
         ok = core.is_err(res) and impl[0] == "err" and impl[1] == res
@@ -293,6 +307,8 @@ def tie_crps(ctx, c, components=True):
 
 def tie_reduce(ctx, c, mod, dims, labs):
     """reduce_dims / preserve_dims spellings and weights: implementation vs gather + weighted NaN-skipping mean over the model's per-case values"""
+    if getattr(ctx, "no_model", False):
+        return
     rng = ctx.rng
     sizes = c["sizes"]
     rd, pd = gens.rand_dimspec(rng, list(sizes) + ([TD] if rng.random() < 0.3 else []), allow_bad=True)
@@ -329,6 +345,8 @@ def tie_reduce(ctx, c, mod, dims, labs):
 
 def dims_errors(ctx, c):
     """dimension part of check_crps_cdf_inputs: every violation is a ValueError"""
+    if getattr(ctx, "no_model", False):
+        return
     rng = ctx.rng
     P = S()
     kind = rng.choice(["td_missing", "td_in_obs", "obs_extra_dim", "weight_no_td", "weight_extra_dim"])
@@ -412,6 +430,13 @@ def partition(ctx, c):
             return
 
 
+def py_trapz(xs, ys):
+    """trapezoid rule over exact rationals (NaN if any ordinate is NaN)"""
+    if any(np.isnan(v) for v in ys):
+        return NAN
+    return sum(((Fraction(x1) - Fraction(x0)) * (Fraction(y0) + Fraction(y1)) / 2 for x0, x1, y0, y1 in zip(xs, xs[1:], ys, ys[1:])), Fraction(0))
+
+
 def brier_tie_and_trapz(ctx, c):
     """crps_cdf_brier_decomposition: per-threshold definition (predicate) and model (tie); trapz (total and components) = trapezoid rule
     over the decomposition (predicate between public calls)"""
@@ -420,14 +445,17 @@ def brier_tie_and_trapz(ctx, c):
         return
     dims, labs, cases = enc_cases({**c, "weight": None})
     ffm = c["opt"]["fcst_fill_method"]
-    m = ctx.model("c07_brier_cases", enc_list([enc_nums(c["fcst"][TD].values), cases, enc_nums(c["add"] or []), enc_str(ffm)]))
+    m = mcall(ctx, "c07_brier_cases", enc_list([enc_nums(c["fcst"][TD].values), cases, enc_nums(c["add"] or []), enc_str(ffm)]))
     kw = dict(threshold_dim=TD, additional_thresholds=c["add"], fcst_fill_method=ffm)
     if dims:
         kw["preserve_dims"] = dims
     impl = core.call_impl(P.crps_cdf_brier_decomposition, c["fcst"], c["obs"], **kw)
     desc = {k: v for k, v in describe(c).items() if k in ("fcst", "obs", "additional_thresholds", "fcst_fill_method")}
     desc["fn"] = "crps_cdf_brier_decomposition"
-    if core.is_err(m) or impl[0] == "err":
+    if m is None:
+        if impl[0] == "err":
+            return
+    elif core.is_err(m) or impl[0] == "err":
         ok = core.is_err(m) and impl[0] == "err" and impl[1] == m
         ctx.case(("brier", desc), nontrivial=ok)
         if not ok:
@@ -435,7 +463,6 @@ def brier_tie_and_trapz(ctx, c):
         return
     ctx.case(("brier", desc))
     ctx.count("brier")
-    grid = core.dec_nums(m[0])
     ds = impl[1]
     bn = ["total_penalty", "underforecast_penalty", "overforecast_penalty"]
     # predicate: at every threshold total = (F - 1{thr >= obs})^2 = under + over, under is the part with obs > thr, over the part with obs <= thr
@@ -455,7 +482,10 @@ def brier_tie_and_trapz(ctx, c):
                               {**desc, "case": sel, "threshold": float(t)}, "under (obs > thr) / over (obs <= thr)", [tot[j], und[j], ovr[j]])
                 break
     # tie
-    if [float(x) for x in ds[TD].values] != [float(g) for g in grid]:
+    grid = core.dec_nums(m[0]) if m is not None else None
+    if m is None:
+        pass
+    elif [float(x) for x in ds[TD].values] != [float(g) for g in grid]:
         ctx.tie_fail("brier decomposition threshold grid differs", desc, ds[TD].values.tolist(), [str(g) for g in grid])
     else:
         done = False
@@ -481,7 +511,7 @@ def brier_tie_and_trapz(ctx, c):
         sel = dict(zip(dims, lb))
         for n, b in zip(NAMES, bn):
             vals = [float(v) for v in ds[b].sel(sel).values]
-            want = core.dec_num(ctx.model("c07_trapz", enc_list([enc_nums(thr), enc_nums(vals)])))
+            want = py_trapz(thr, vals)
             got = float(tz[1][n].sel(sel).values)
             if not core.close(got, want, tol=1e-8):
                 ctx.violation(f"crps_cdf(trapz) {n} is not the trapezoid integral of the Brier decomposition", {**desc, "case": sel}, str(want), got)
@@ -557,6 +587,12 @@ def sweep(ctx, full):
         r = tie_crps(ctx, c)
         ctx.count("sweep_calls")
         ctx.count("sweep_cases", len(lines) * len(obs_vals))
+
+
+def run_without_model(ctx):
+    """the extracted model does not build against the current source: still evaluate every relation between public calls"""
+    ctx.no_model = True
+    run(ctx)
 
 
 def replay(ctx, obj):
